@@ -291,7 +291,8 @@ func c06Run(c C06Case, bound time.Duration) C06Result {
 		return res
 	}
 	srv := &c06Server{l: l, script: c.Attempts, stop: make(chan struct{})}
-	go srv.serve()
+	served := make(chan struct{})
+	go func() { srv.serve(); close(served) }()
 	defer l.Close()
 	var stopOnce sync.Once
 	stopHeld := func() { stopOnce.Do(func() { close(srv.stop) }) }
@@ -403,6 +404,9 @@ func c06Run(c C06Case, bound time.Duration) C06Result {
 	if !res.Hang {
 		// let the server goroutines finish recording
 		stopHeld()
+		// no further connection is accepted (and so none added to the wait group) once the accept loop has ended
+		l.Close()
+		<-served
 		waited := make(chan struct{})
 		go func() { srv.wg.Wait(); close(waited) }()
 		select {
